@@ -105,13 +105,12 @@ def promoted_value(h, constop):
     v = constop.cint()
     if v is not None: return v
     dbg = (constop.const or {}).get("dbg", "")
-    if "promoted[" in dbg:
-        idx = int(dbg.split("promoted[")[1].split("]")[0])
-        for b in h.body.unit.bodies:
-            if b.path == h.body.path and b.promoted == idx:
-                for s in b.stmts():
-                    if s.kind == "assign" and s.rv == "use" and s.ops and s.ops[0].is_const and s.ops[0].cint() is not None:
-                        return s.ops[0].cint()
+    from vlib.facts import promoted_body
+    pb = promoted_body(h.body, dbg)
+    if pb is not None:
+        for s in pb.stmts():
+            if s.kind == "assign" and s.rv == "use" and s.ops and s.ops[0].is_const and s.ops[0].cint() is not None:
+                return s.ops[0].cint()
     return None
 
 def tail_kind(h, ok_stmt):
